@@ -109,7 +109,7 @@ func runFault(c *hx.Ctx, seq *Seq, counts []int, K int) {
 		// the disk itself: the extracted predicate on the decoded image (e.g. chain height vs presence of
 		// the head block's families after a failed revert / store)
 		encD, notesD := w.decodeImage(w.inner)
-		if evD := strings.Fields(or.Ask("eval "+fmt.Sprintf("%x", W)+" ; "+encD, 1)[0]); len(evD) == 4 && (evD[0] != "1" || len(notesD) > 0) && !staleWindow(encD) {
+		if evD := strings.Fields(or.Ask("eval "+fmt.Sprintf("%x", W)+" ; "+encD, 1)[0]); len(evD) == 5 && (evD[0] != "1" || evD[4] != "1" || len(notesD) > 0) && !staleWindow(encD) {
 			c.Violation("failed-"+kind+":inconsistent-disk", where+fmt.Sprintf("after op %d the database is not consistent (height vs index families): %s image=%s", idx, strings.Join(notesD, "; "), short(encD)), cs, false)
 			return
 		}
